@@ -148,9 +148,35 @@ def match_finding(finding, failure):
     return False
 
 
+from c02 import ScanForStart  # noqa: E402
+
+
+class ScanNoCrash(ScanForStart):
+    """the off-region scanner on fragment soups: any exception is an internal error"""
+    name = "scan_no_crash"
+
+    def prop(self, case, o):
+        if o and o[0] == "impl-exception":
+            return "scan_for_start raised %s" % o[1]
+        return None
+
+
+class OffRegionSoup(ParseSoup):
+    """documents that switch parsing off and end inside / right after the off region"""
+    name = "off_region_soup"
+    FR = ["#phil", " ", "\n", "__ON__", "__END__", "__OFF__", "x = 1", "\t", "#", "  \n", "a {", "}", "'q", "#philter", "#phil __OFF__\n"]
+
+    def corpus(self):
+        return []
+
+    def cases(self, rng, tier):
+        for _ in range(1500 if tier == "quick" else 40000):
+            yield "#phil __OFF__" + rng.choice(["\n", " \n", ""]) + "".join(rng.choice(self.FR) for _ in range(rng.randint(0, 8)))
+
+
 SPEC = {
-    "clusters": ["Parse"],
-    "streams": [ParseSoup, ArgSoup],
+    "clusters": ["Parse", "Tok"],
+    "streams": [ParseSoup, ArgSoup, OffRegionSoup, ScanNoCrash],
     "match_finding": match_finding,
     "rule": "PHIL-biased token soup and 1-2 mutations (delete/duplicate/transpose/truncate/insert) of generated documents into freephil.parse "
             "and into argument_interpreter.process_arg; observation = outcome class (ok / RuntimeError / Sorry / other:<Class>); the model's "
